@@ -11,7 +11,8 @@ import (
 
 func c16Gen(g *G) {
 	r := g.R
-	hostile := []string{"p", "k", "u", "x", "t", "e", "b", "q12345", "q0", "n77", "B0", "zt", "zc", "N2(x)", "N5(u)", "N6(p)", "N3(q12345)"}
+	hostile := []string{"p", "k", "u", "x", "t", "e", "b", "q12345", "q0", "n77", "B0", "zt", "zc", "N2(x)", "N5(u)", "N6(p)", "N3(q12345)",
+		"tr4", "tr5", "tr8", "tr11", "tr12", "tr13", "tr16", "tr19", "tr20"}
 	g.Emit("c16.run o g0;w1;b;q12345;x;t;e;u;a0", "each-kind")
 	g.Emit("c16.run o,o g0;w1;close;g1;w2;a1;a0", "close-then-probe")
 	// notifications naming a message the client wrote that is not a request (its own msgs_ack): a real
@@ -23,6 +24,8 @@ func c16Gen(g *G) {
 	// compressed messages whose framing is fine and whose stream is damaged; containers inside containers, deep,
 	// repeatedly, with the answer itself nested
 	g.Emit("c16.run o,o g0;w1;zt;zc;c(zt,p);a0;j;g1;w2;a1", "damaged-gzip")
+	// an rpc_result cut at every length (the client looks into it before decoding it)
+	g.Emit("c16.run o,o tr4;tr5;tr6;tr7;tr8;tr9;tr10;tr11;tr12;g1;w1;c(tr8,tr13,a1)", "truncated-rpc-result")
 	g.Emit("c16.run o,o N5(u);N6(x);N7(p);N5(n88);g1;w1;c(p,a1)", "nested-containers")
 	g.Emit("c16.run o,o N6(u);g1;w1;N4(a1)", "nested-containers")
 	g.Emit("c16.run o,o,o g0+1+2;w3;N9(p);N2(c(a1,u));N4(a2);N2(c(u,N1(a0)))", "nested-containers")
